@@ -473,6 +473,15 @@ def isolation(tid: int, seed: int) -> list:
                 ackLim=2, nakLim=2, chkLim=2, file=[rng.randrange(256) for _ in range(n)], chk=rng.choice(["CRC32", "CRC32C", "NULL"]),
                 putMode=rng.choice(modes), putClosure=rng.choice(["none", "true", "false"]), more=more, seq0=rng.choice([0, 254]), seqW=1,
                 disp=rng.random() < 0.5)
+    if seed % 3 == 0:
+        # segment length derived from the maximum packet length and the header widths; the HISTORY addresses the same remote
+        # entity with a wider entity-id field (state written back into the shared MIB entry would leak into T)
+        # (maxPkt >= 22: a NAK PDU without requests must fit with the WIDE header of the history, 13 + 1 + 8 bytes - below
+        # that spacepackets' sizing helper raises ValueError out of the receiver, a MIB value outside what is modelled)
+        n = rng.choice([20, 31])
+        cfg.update(segLen=0, maxPkt=rng.choice([22, 25]), file=[rng.randrange(256) for _ in range(n)], putDIdW=4)
+        for m in more[:-1]:
+            m["putDIdW"] = 4
     a = pairmod.Pair(cfg)
     sib = None
     try:
@@ -527,7 +536,7 @@ def isolation(tid: int, seed: int) -> list:
         ev2 = a.w.ev[n0:]
         # ---- T on fresh handlers ----
         t_mode, t_clo = more[nh - 1]["putMode"], more[nh - 1]["putClosure"]
-        cfg_b = dict(cfg, putMode=t_mode, putClosure=t_clo, more=[], seq0=seq_at,
+        cfg_b = dict(cfg, putMode=t_mode, putClosure=t_clo, more=[], seq0=seq_at, putDIdW=0,
                      dstShape="existing" if old else "file", dstOld=old[0]["d"] if old else [])
         b = pairmod.Pair(cfg_b)
         try:
